@@ -628,6 +628,11 @@ class Gen(object):
             m = r.choice([1, -1]) * r.choice([1, 2, 3, 5, 255, 256, 257, 2 ** 20, 2 ** 52 + 1, 12345, 10 ** 15 + 3])
             e = r.choice([0, 1, -1, 2, -2, 10, -10, 127, 128, -128, -129, 255, 256, 1000, -1000])
             base = 10 if (self.allow_real10 and r.random() < 0.3) else 2
+            # normal form (odd mantissa / no trailing decimal zeros) so that structural equality of the
+            # triples coincides with numeric equality (DEFAULT comparison is numeric)
+            while m % base == 0:
+                m //= base
+                e += 1
             return ('real', m, base, e)
         if k == 'any':
             # the complete encoding of some value: scalar, constructed, definite or indefinite
